@@ -1,7 +1,11 @@
 //! C17: a recorded type name denotes the same type in generated code; table lookups ignore
 //! whitespace and accept the short and the compiler's spelling.
 
-use std::{collections::BTreeSet, fs, process::Command};
+use std::{
+    collections::{BTreeMap, BTreeSet},
+    fs,
+    process::Command,
+};
 
 use proptest::prelude::*;
 use serde::{Deserialize, Serialize};
@@ -184,7 +188,8 @@ pub struct TyCase {
 }
 
 const P1_HELPERS: &str = r#"
-use truc::record::type_resolver::{HostTypeResolver, StaticTypeResolver, TypeResolver};
+use truc::record::type_resolver::{HostTypeResolver, StaticTypeResolver, TypeInfo, TypeResolver};
+use truc::record::definition::builder::native::{DatumDefinitionOverride, NativeRecordDefinitionBuilder};
 
 fn tokens(s: &str) -> Vec<String> {
     let mut out: Vec<String> = vec![];
@@ -260,9 +265,51 @@ fn look<T>(i: usize, table: &StaticTypeResolver, short: &str, plan: &[u8]) {
         }
     }
 }
+
+/// Every other route by which a name gets recorded for `T`: typed and by-name lookups in the table of the
+/// generated types and in a table of the standard types only (where `T` may be absent: no answer is fine, an
+/// answer for another type is not), and data added to a native builder over the table.
+fn routes<T>(i: usize, table: &StaticTypeResolver, std_table: &StaticTypeResolver, short: &str, plan: &[u8]) {
+    fn quiet<R>(f: impl FnOnce() -> R) -> Option<R> {
+        std::panic::catch_unwind(std::panic::AssertUnwindSafe(f)).ok()
+    }
+    let report = |how: &str, info: Option<TypeInfo>| {
+        if let Some(info) = info {
+            let layout = info.size == std::mem::size_of::<T>() && info.align == std::mem::align_of::<T>();
+            println!("X\t{}\t{}\t{}\t{}", i, how, if layout { "LAYOUT_OK" } else { "LAYOUT_WRONG" }, info.name);
+        }
+    };
+    let compiler = std::any::type_name::<T>().to_string();
+    let respaced = respace(&compiler, plan);
+    report("table.type_info::<T>()", quiet(|| table.type_info::<T>()));
+    report("std_table.type_info::<T>()", quiet(|| std_table.type_info::<T>()));
+    report("std_table.dynamic_type_info(short)", quiet(|| std_table.dynamic_type_info(short)).map(|d| d.info));
+    report("std_table.dynamic_type_info(compiler's)", quiet(|| std_table.dynamic_type_info(&compiler)).map(|d| d.info));
+    let mut b = NativeRecordDefinitionBuilder::new(table);
+    let mut added = vec![];
+    added.push(("builder.add_datum::<T>", quiet(|| b.add_datum::<T, _>("a"))));
+    added.push(("builder.add_dynamic_datum(short)", quiet(|| b.add_dynamic_datum("b", short))));
+    added.push(("builder.add_dynamic_datum(compiler's)", quiet(|| b.add_dynamic_datum("c", &compiler))));
+    added.push(("builder.add_dynamic_datum(compiler's, re-spaced)", quiet(|| b.add_dynamic_datum("d", &respaced))));
+    added.push((
+        "builder.add_datum_override::<T>(flag only)",
+        quiet(|| b.add_datum_override::<T, _>("e", DatumDefinitionOverride { type_name: None, size: None, align: None, allow_uninit: Some(false) })),
+    ));
+    for (how, id) in added {
+        if let Some(Ok(id)) = id {
+            report(how, quiet(|| b[id].details().type_info().clone()));
+        }
+    }
+}
 "#;
 
 struct Verdicts {
+    /// (case, route, name, compiler's message): a name recorded through another route that does not denote the type
+    route_mismatch: Vec<(usize, String, String, String)>,
+    /// per route: number of answers obtained
+    route_answers: BTreeMap<String, u64>,
+    /// number of recorded names that differ from the host resolver's and got a probe of their own
+    extra_probes: u64,
     recorded: Vec<Option<String>>,
     lookup_failures: Vec<Vec<String>>,
     type_mismatch: Vec<Option<String>>,
@@ -272,12 +319,15 @@ fn pipeline(ext: &Externs, dir: &std::path::Path, cases: &[TyCase]) -> Result<Ve
     // P1
     let mut p1 = String::new();
     p1.push_str(P1_HELPERS);
-    p1.push_str("fn main() {\n    std::panic::set_hook(Box::new(|_| {}));\n    let mut table = StaticTypeResolver::new();\n");
+    p1.push_str("fn main() {\n    std::panic::set_hook(Box::new(|_| {}));\n    let mut table = StaticTypeResolver::new();\n    let mut std_table = StaticTypeResolver::new();\n    std_table.add_std_types();\n");
     for (i, c) in cases.iter().enumerate() {
         p1.push_str(&format!("    emit::<{}>({}, &mut table);\n", c.ty.short(), i));
     }
     for (i, c) in cases.iter().enumerate() {
         p1.push_str(&format!("    look::<{}>({}, &table, {:?}, &{:?});\n", c.ty.short(), i, c.ty.short(), c.spaces));
+    }
+    for (i, c) in cases.iter().enumerate() {
+        p1.push_str(&format!("    routes::<{}>({}, &table, &std_table, {:?}, &{:?});\n", c.ty.short(), i, c.ty.short(), c.spaces));
     }
     p1.push_str("}\n");
     let p1_src = dir.join("p1_main.rs");
@@ -298,10 +348,20 @@ fn pipeline(ext: &Externs, dir: &std::path::Path, cases: &[TyCase]) -> Result<Ve
     let text = String::from_utf8_lossy(&run.stdout).to_string();
     let mut recorded: Vec<Option<String>> = vec![None; cases.len()];
     let mut lookup_failures: Vec<Vec<String>> = vec![vec![]; cases.len()];
+    let mut routes: Vec<(usize, String, String)> = vec![];
+    let mut route_answers: BTreeMap<String, u64> = BTreeMap::new();
     for line in text.lines() {
         let p: Vec<&str> = line.splitn(5, '\t').collect();
         match p.as_slice() {
             ["N", i, name] => recorded[i.parse::<usize>().unwrap()] = Some(name.to_string()),
+            ["X", i, how, layout, name] => {
+                let i = i.parse::<usize>().unwrap();
+                if *layout != "LAYOUT_OK" {
+                    lookup_failures[i].push(format!("{} answers {:?} with a size / alignment that is not the type's", how, name));
+                }
+                *route_answers.entry(format!("route_answered: {}", how)).or_default() += 1;
+                routes.push((i, how.to_string(), name.to_string()));
+            }
             ["L", i, k, verdict, spelling] => {
                 if *verdict != "OK" {
                     lookup_failures[i.parse::<usize>().unwrap()].push(format!("spelling #{} {:?}: {}", k, spelling, verdict));
@@ -319,6 +379,14 @@ fn pipeline(ext: &Externs, dir: &std::path::Path, cases: &[TyCase]) -> Result<Ve
             None => p2.push_str("\n"),
         }
     }
+    // names recorded through the other routes: those that are not the host resolver's name get a probe of their own
+    let mut extra: Vec<(usize, String, String)> = vec![];
+    for (i, how, name) in routes {
+        if recorded[i].as_deref() != Some(name.as_str()) && !extra.iter().any(|(j, _, n)| *j == i && *n == name) {
+            p2.push_str(&format!("pub fn q_{}_{}(x: PhantomData<{}>) -> PhantomData<{}> {{ x }}\n", i, extra.len(), cases[i].ty.short(), name));
+            extra.push((i, how, name));
+        }
+    }
     let p2_src = dir.join("p2.rs");
     fs::write(&p2_src, &p2).map_err(|e| e.to_string())?;
     let mut cmd = Command::new("rustc");
@@ -330,6 +398,7 @@ fn pipeline(ext: &Externs, dir: &std::path::Path, cases: &[TyCase]) -> Result<Ve
     cmd.arg(&p2_src);
     let o = cmd.output().map_err(|e| e.to_string())?;
     let mut type_mismatch: Vec<Option<String>> = vec![None; cases.len()];
+    let mut route_mismatch: Vec<(usize, String, String, String)> = vec![];
     if !o.status.success() {
         let stderr = String::from_utf8_lossy(&o.stderr).to_string();
         let mut any = false;
@@ -344,6 +413,12 @@ fn pipeline(ext: &Externs, dir: &std::path::Path, cases: &[TyCase]) -> Result<Ve
                             type_mismatch[idx] = Some(line.to_string());
                             any = true;
                         }
+                    } else if n > header_lines + cases.len() && n - header_lines - cases.len() - 1 < extra.len() && line.contains("error") {
+                        let (i, how, name) = extra[n - header_lines - cases.len() - 1].clone();
+                        if !route_mismatch.iter().any(|(j, h, _, _)| *j == i && *h == how) {
+                            route_mismatch.push((i, how, name, line.to_string()));
+                        }
+                        any = true;
                     }
                 }
             }
@@ -352,10 +427,14 @@ fn pipeline(ext: &Externs, dir: &std::path::Path, cases: &[TyCase]) -> Result<Ve
             return Err(format!("P2 rejected but no error could be mapped to a type:\n{}", stderr.chars().take(2000).collect::<String>()));
         }
     }
-    Ok(Verdicts { recorded, lookup_failures, type_mismatch })
+    Ok(Verdicts { recorded, lookup_failures, type_mismatch, route_mismatch, route_answers, extra_probes: extra.len() as u64 })
 }
 
 fn judge(cases: &[TyCase], v: &Verdicts, out: &mut Acc) {
+    for (k, n) in &v.route_answers {
+        *out.classes.entry(k.clone()).or_default() += n;
+    }
+    *out.classes.entry("recorded_names_other_than_the_host_resolvers".to_string()).or_default() += v.extra_probes;
     for (i, c) in cases.iter().enumerate() {
         out.evaluations += 1;
         let mut std_used = BTreeSet::new();
@@ -391,6 +470,12 @@ fn judge(cases: &[TyCase], v: &Verdicts, out: &mut Acc) {
                 }
             }
         }
+        for (_, how, name, e) in v.route_mismatch.iter().filter(|r| r.0 == i) {
+            failed = true;
+            if out.failures.len() < 4 {
+                out.failures.push(json!({"signature": "c17:different-type", "message": format!("type {} is recorded as {:?} through {}, which does not denote the same type where generated code is compiled: {}", c.ty.short(), name, how, e), "case": c}));
+            }
+        }
         if !v.lookup_failures[i].is_empty() {
             failed = true;
             if out.failures.len() < 4 {
@@ -419,7 +504,7 @@ pub fn run_c17(n: usize) -> Result<Value, String> {
     let _ = fs::remove_dir_all(&dir);
     Ok(out.to_json(
         "C17",
-        "types from the grammar T ::= 16 primitives | String | Box<str> | Box<T> | Vec<T> | Option<T> | Result<T,T> | tuples of arity 0..3 | [T; n] | Box<[T]> | user types (plain, generic, nested-module generic, two-parameter), nesting depth <= 5, deduplicated; program P1 (compiled, run) prints the name truc records for each and looks each up in a StaticTypeResolver by 6 spellings (short, compiler's, each re-spaced by a generated plan, no spaces, extra spaces); program P2 must type-check `fn(PhantomData<T as written>) -> PhantomData<T as recorded>` for every type. non-trivial: depth >= 3 and (>= 2 of the 5 rewritten std paths or a user type nested in a std type); distinct by hash of the type",
+        "types from the grammar T ::= 16 primitives | String | Box<str> | Box<T> | Vec<T> | Option<T> | Result<T,T> | tuples of arity 0..3 | [T; n] | Box<[T]> | user types (plain, generic, nested-module generic, two-parameter), nesting depth <= 5, deduplicated; program P1 (compiled, run) prints the name truc records for each and looks each up in a StaticTypeResolver by 6 spellings (short, compiler's, each re-spaced by a generated plan, no spaces, extra spaces); the name recorded for each type through the other routes is printed too (typed lookup in that table; typed and by-name lookups in a table of the standard types only, where no answer is fine but an answer for another type is not; data added to a native builder over the table through add_datum, add_dynamic_datum with three spellings and a partial override); program P2 must type-check `fn(PhantomData<T as written>) -> PhantomData<T as recorded>` for every type and every distinct recorded name, and every answer must carry the type's size and alignment. non-trivial: depth >= 3 and (>= 2 of the 5 rewritten std paths or a user type nested in a std type); distinct by hash of the type",
     ))
 }
 
